@@ -312,6 +312,12 @@ func buildOps() {
 				b := b
 				add(opinst{fmt.Sprintf("S%d.Add(S%d,S%d)", v, a, b), nil, func(ps []*Point, ss []*Scalar) (bool, error) { return ss[v].Add(ss[a], ss[b]) == ss[v], nil },
 					func(ms *mstate) bool { ms.S[v] = ref.ZnAdd(ms.S[a], ms.S[b]); return false }})
+				add(opinst{fmt.Sprintf("S%d.Product(S%d,S%d,S%d)", v, a, b, a), nil, func(ps []*Point, ss []*Scalar) (bool, error) { return ss[v].Product(ss[a], ss[b], ss[a]) == ss[v], nil },
+					func(ms *mstate) bool { ms.S[v] = ref.ZnMul(ref.ZnMul(ms.S[a], ms.S[b]), ms.S[a]); return false }})
+				add(opinst{fmt.Sprintf("S%d.Sum(S%d,S%d,S%d)", v, a, b, b), nil, func(ps []*Point, ss []*Scalar) (bool, error) { return ss[v].Sum(ss[a], ss[b], ss[b]) == ss[v], nil },
+					func(ms *mstate) bool { ms.S[v] = ref.ZnAdd(ref.ZnAdd(ms.S[a], ms.S[b]), ms.S[b]); return false }})
+				add(opinst{fmt.Sprintf("S%d.Subtract(S%d,S%d)", v, a, b), nil, func(ps []*Point, ss []*Scalar) (bool, error) { return ss[v].Subtract(ss[a], ss[b]) == ss[v], nil },
+					func(ms *mstate) bool { ms.S[v] = ref.ZnSub(ms.S[a], ms.S[b]); return false }})
 				add(opinst{fmt.Sprintf("S%d.Multiply(S%d,S%d)", v, a, b), nil, func(ps []*Point, ss []*Scalar) (bool, error) { return ss[v].Multiply(ss[a], ss[b]) == ss[v], nil },
 					func(ms *mstate) bool { ms.S[v] = ref.ZnMul(ms.S[a], ms.S[b]); return false }})
 			}
